@@ -72,6 +72,15 @@ ManyGroups == << Groups(10) \o <<RRef("_10")>>, Groups(10) \o <<RRef("_1"), RSet
 ab(n) == [j \in 1..n |-> IF j % 2 = 1 THEN ca ELSE cb]
 ManyTexts == << ab(10) \o <<cb>>, ab(10) \o <<ca, 48>>, ab(10) \o <<cb, ca>>, ab(11) \o <<ca, ca>>, ab(12) \o <<cb, cb>>, ab(9) \o <<ca>>,
                 ab(9) \o <<cb>>, <<ca>> \o ab(10) \o <<cb, cb>>, ab(12) \o <<cb, cb, ca, 48>>, ab(10) \o <<cb, 48>> >>
+BigQuants == << <<RQ(10, 10, FALSE, RC(ca))>>, <<RQ(12, -1, FALSE, RC(ca)), RC(cb)>>, <<RQ(2, 13, FALSE, RC(ca)), RC(cb)>>, <<RQ(10, 12, TRUE, RC(ca))>>,
+                <<RQ(11, 11, FALSE, RSet(FALSE, <<SC(ca), SC(cb)>>))>>, <<RC(cb), RQ(0, 10, FALSE, RC(ca)), RC(cb)>> >>
+as(n) == [j \in 1..n |-> ca]
+BigQTexts == << as(1), as(9), as(10), as(11), as(12) \o <<cb>>, as(13) \o <<cb>>, as(14) \o <<cb>>, as(21), as(21) \o <<cb>>, as(31) \o <<cb>>, <<cb>> \o as(10) \o <<cb>>,
+                <<cb>> \o as(11) \o <<cb>>, <<cb, cb>>, ab(11), ab(12) >>
+MkBigQCase(id, rs) ==
+  [id |-> id, regex |-> rs,
+   cmds |-> <<[kind |-> "find", amt |-> [k |-> "all"], body |-> ToPattern(rs)]>>,
+   srcbytes |-> FindAllAt \o RSrcSeq(rs) \o <<47>>, resrc |-> RSrcSeq(rs), texts |-> BigQTexts]
 MkManyCase(id, rs) ==
   [id |-> id, regex |-> rs,
    cmds |-> <<[kind |-> "find", amt |-> [k |-> "all"], body |-> ToPattern(rs)]>>,
@@ -89,6 +98,7 @@ MkSplitCase(id, pr) ==
    srcbytes |-> FindAllAt \o RSrcSeq(pr[1]) \o <<47, 32, 64, 47>> \o RSrcSeq(pr[2]) \o <<47>>, resrc |-> RSrcSeq(pr[1] \o pr[2]),
    split |-> TRUE, sigma |-> SetToSeq({ca, cb, c1}), lo |-> 1, hi |-> IF Tier = "quick" THEN 4 ELSE 5]
 ASSUME ndJsonSerialize(OutFile, [i \in 1..Len(All) |-> MkRegexCase(i, All[i])] \o [i \in 1..Len(ManyGroups) |-> MkManyCase(Len(All) + i, ManyGroups[i])]
-                                  \o [i \in 1..Len(SplitPairs) |-> MkSplitCase(Len(All) + Len(ManyGroups) + i, SplitPairs[i])])
+                                  \o [i \in 1..Len(SplitPairs) |-> MkSplitCase(Len(All) + Len(ManyGroups) + i, SplitPairs[i])]
+                                  \o [i \in 1..Len(BigQuants) |-> MkBigQCase(Len(All) + Len(ManyGroups) + Len(SplitPairs) + i, BigQuants[i])])
 ASSUME PrintT(<<"cases", Len(All)>>)
 =============================================================================
